@@ -4,6 +4,7 @@ import CgtModel.Lemmas.SpecPerm
 import CgtModel.Lemmas.SpecTable
 import CgtModel.Props.C01
 import CgtModel.Props.C13
+import CgtModel.Props.Formulas
 /-! # C06 — the report does not depend on line order, file split or fill splitting
 
 Full statement: permuting the input lines, distributing them over files, or recording one trade as
